@@ -4,6 +4,8 @@ package c05
 
 import (
 	"fmt"
+	"math/bits"
+	"runtime/debug"
 	"testing"
 
 	"github.com/openacid/low/bmtree"
@@ -16,24 +18,51 @@ import (
 
 func TestMain(m *testing.M) { vk.Main(m, "C05") }
 
+// Case is one node (h, index) of the domain or, when Run > 0, a WORK UNIT: a
+// deterministic sequence of nodes that the grid evaluates back to back,
+//
+//	for j in 0..Run-1: idx = Index + j*Step (Step 0 means 1);  for h in H..max(H,HTo): node (h, idx)
+//
+// (a node is skipped when idx lies outside the tree of height h). Units are
+// what TestGrid walks without per-node bookkeeping; a unit is written to a
+// case file only when the failure of one of its nodes does not reproduce from
+// the node alone (the result depended on the calls made before) or when the
+// process died inside it.
 type Case struct {
 	H     int   `json:"h"`
 	Index int64 `json:"index"`
+	Run   int64 `json:"run,omitempty"`
+	Step  int64 `json:"step,omitempty"`
+	HTo   int   `json:"h_to,omitempty"`
 }
 
-func gridMaxH() int { return vk.Pick(22, 30) }
+const maxHeight = 30
+
+func gridMaxH() int { return vk.Pick(23, maxHeight) }
+
+func treeSize(h int) int64 { return int64(1)<<uint(h+1) - 1 }
 
 var checker = &vk.Checker[Case]{
 	ID: "C05",
-	Rule: "every (height h, index) of the full tree is produced by an explicit iterative pre-order walk whose visit counter is the index (quick: heights 0..22 completely = 2^24-25 nodes; thorough: all heights 0..30 = 2^32-33 pairs, sharded by subtree); " +
-		"per node IndexToPath(h,i) == walked path, PathToIndex(2^(h+1)-1, path) == i and the composite; quick adds rapid-sampled (h in 23..30, index at 0,1,2^h-1,2^h,2^h+1,last, +-1 around multiples of 2^k, random) checked against an independent inverse (descent by subtree sizes). " +
-		"Non-trivial: h >= 5 (beyond the pure lookup table). Enumerated nodes are distinct by construction; sampled cases are hashed only when h lies above the enumerated heights.",
+	Rule: "every (height h, index) of the full tree is produced by an explicit iterative pre-order walk whose visit counter is the index (quick: heights 0..23 completely = 2^25-26 nodes; thorough: all heights 0..30 = 2^32-33 pairs, sharded by subtree); " +
+		"per node IndexToPath(h,i) == walked path, PathToIndex(2^(h+1)-1, path) == i and the composite. " +
+		"Quick adds, for the heights 24..30 it cannot enumerate: (1) a strided lattice index = offset + j*stride over the WHOLE index range of every height, stride an odd number in 113..127 chosen with the offset from (VERIF_SEED, h), so that every window of 128 consecutive indexes of every height is met and every residue class modulo a power of two is met in proportion; " +
+		"(2) an offset sweep: for every k in 0..h and 64 multipliers m (1,2,3, the two largest, the rest pseudo-random, half of them odd) the h+4 consecutive indexes m*2^k-2 .. m*2^k+h+1, i.e. every position of the window (index-h, index] relative to a multiple of every power of two; " +
+		"(3) calling-context walks over heights 5..30 (indexes in step across all heights, descending index order at both ends of each height); " +
+		"(4) rapid-sampled (h in 24..30, index at 0,1,2^h-1,2^h,2^h+1,last, m*2^k+d with d in -2..h+1, random). Sampled and strided nodes are checked against an independent inverse (descent by subtree sizes). " +
+		"Non-trivial: h >= 5 (beyond the pure lookup table). Enumerated and lattice nodes are distinct by construction; the nodes of (2) and (3) are evaluated but NOT counted as distinct (they may coincide with each other or with the lattice); sampled cases are hashed only when h lies above the enumerated heights and the index is not on the lattice.",
 	Check:    check,
 	Classify: classify,
-	Hashed:   func(c Case) bool { return c.H > gridMaxH() },
+	Hashed:   func(c Case) bool { return c.Run == 0 && c.H > gridMaxH() && !onLattice(c.H, c.Index) },
+	// a unit is evaluated through the checker only when it is replayed from a file: keep it on disk
+	// while it runs (it may have been stored because the process died in it)
+	Risky: func(c Case) bool { return c.Run > 0 },
 }
 
 func classify(c Case) (bool, []string) {
+	if c.Run > 0 {
+		return false, []string{"unit-replayed-as-one-case"}
+	}
 	l := "h:0-4"
 	switch {
 	case c.H >= 23:
@@ -66,9 +95,15 @@ func inverse(h int, idx int64) (prefix uint64, l int) {
 	}
 }
 
+// pathWord is model.PathWord without the loop (the run of l ones is 2^l-1); TestGrid
+// compares the two on every (l, h) before it relies on this one.
+func pathWord(prefix uint64, l, h int) uint64 {
+	return (prefix<<32 | (uint64(1)<<uint(l) - 1)) << uint(h-l)
+}
+
 func checkNode(h int, idx int64, prefix uint64, l int) *vk.Failure {
 	want := model.PathWord(prefix, l, h)
-	full := int32(int64(1)<<uint(h+1) - 1)
+	full := int32(treeSize(h))
 	var got uint64
 	var back int32
 	if f := vk.Try(fmt.Sprintf("IndexToPath(h=%d, index=%d)", h, idx), func() { got = bmtree.IndexToPath(int32(h), int32(idx)) }); f != nil {
@@ -86,24 +121,223 @@ func checkNode(h int, idx int64, prefix uint64, l int) *vk.Failure {
 	return nil
 }
 
+// inDomain: the quantifier's domain (and, for a unit, a sane extent).
+func inDomain(c Case) bool {
+	if c.H < 0 || c.H > maxHeight {
+		return false
+	}
+	if c.Run == 0 {
+		return c.Index >= 0 && c.Index < treeSize(c.H) && c.Step == 0 && c.HTo == 0
+	}
+	if c.Run < 0 || c.Run > int64(1)<<32 || c.HTo > maxHeight || c.Step > int64(1)<<32 || c.Step < -(int64(1)<<32) {
+		return false
+	}
+	return true
+}
+
 func check(c Case) *vk.Failure {
+	if !inDomain(c) {
+		vk.Infra(fmt.Sprintf("case outside the domain of the property: %+v", c))
+		return nil
+	}
+	if c.Run > 0 {
+		_, _, f := walkUnit(c)
+		return f
+	}
 	p, l := inverse(c.H, c.Index)
 	// the two oracles must agree (harness self-check)
-	if oi, _ := model.NewTree(int32(int64(1)<<uint(c.H+1)-1)).Index(p, l); oi != c.Index {
+	if oi, _ := model.NewTree(int32(treeSize(c.H))).Index(p, l); oi != c.Index {
 		vk.Infra(fmt.Sprintf("inverse oracle disagrees with tree oracle at h=%d idx=%d", c.H, c.Index))
 		return nil
 	}
 	return checkNode(c.H, c.Index, p, l)
 }
 
+// ---------------------------------------------------------------- unit walks
+
+func panicFailure(h int, idx int64, r any) *vk.Failure {
+	st := string(debug.Stack())
+	if len(st) > 2500 {
+		st = st[:2500]
+	}
+	return vk.Failf("panic", "IndexToPath(h=%d, index=%d) / PathToIndex(full h=%d, its path) panicked: %v\n%s", h, idx, h, r, st)
+}
+
+// walkUnit evaluates the nodes of a unit in order and returns the first node
+// that fails. A panic of the library is a failure of the node that was running.
+func walkUnit(c Case) (fh int, fidx int64, f *vk.Failure) {
+	step := c.Step
+	if step == 0 {
+		step = 1
+	}
+	if step == 1 && c.HTo <= c.H {
+		fidx, f = walkRun(c.H, c.Index, c.Run)
+		return c.H, fidx, f
+	}
+	if step > 1 && c.HTo <= c.H && c.Index >= 0 {
+		fidx, f = walkStride(c.H, c.Index, c.Run, step)
+		return c.H, fidx, f
+	}
+	hTo := max(c.H, c.HTo)
+	curH, cur := c.H, c.Index
+	defer func() {
+		if r := recover(); r != nil {
+			fh, fidx, f = curH, cur, panicFailure(curH, cur, r)
+		}
+	}()
+	for j := int64(0); j < c.Run; j++ {
+		idx := c.Index + j*step
+		for h := c.H; h <= hTo; h++ {
+			if idx < 0 || idx >= treeSize(h) {
+				continue
+			}
+			curH, cur = h, idx
+			prefix, l := inverse(h, idx)
+			want := pathWord(prefix, l, h)
+			if got := bmtree.IndexToPath(int32(h), int32(idx)); got != want {
+				return h, idx, vk.Failf("index-to-path", "IndexToPath(h=%d, index=%d) = %#x, want %#x (prefix=%b len=%d)", h, idx, got, want, prefix, l)
+			}
+			if back := bmtree.PathToIndex(int32(treeSize(h)), want); int64(back) != idx {
+				return h, idx, vk.Failf("path-to-index-full", "PathToIndex(full h=%d, %#x) = %d, want %d", h, want, back, idx)
+			}
+		}
+	}
+	return 0, -1, nil
+}
+
+// walkRun: n consecutive indexes of height h from start, paths by pre-order
+// succession (no closure, no formatting on the hot path; the deferred recover
+// costs one store per node).
+func walkRun(h int, start, n int64) (fidx int64, f *vk.Failure) {
+	size := treeSize(h)
+	if start < 0 {
+		n += start
+		start = 0
+	}
+	if start+n > size {
+		n = size - start
+	}
+	if n <= 0 {
+		return -1, nil
+	}
+	cur := start
+	defer func() {
+		if r := recover(); r != nil {
+			fidx, f = cur, panicFailure(h, cur, r)
+		}
+	}()
+	prefix, l := inverse(h, start)
+	hh, full := int32(h), int32(size)
+	idx := start
+	for end := start + n; idx < end; idx++ {
+		cur = idx
+		want := pathWord(prefix, l, h)
+		if got := bmtree.IndexToPath(hh, int32(idx)); got != want {
+			return idx, vk.Failf("index-to-path", "IndexToPath(h=%d, index=%d) = %#x, want %#x (prefix=%b len=%d)", h, idx, got, want, prefix, l)
+		}
+		if back := bmtree.PathToIndex(full, want); int64(back) != idx {
+			return idx, vk.Failf("path-to-index-full", "PathToIndex(full h=%d, %#x) = %d, want %d", h, want, back, idx)
+		}
+		// pre-order successor
+		if l < h {
+			prefix <<= 1
+			l++
+			continue
+		}
+		for l > 0 && prefix&1 == 1 {
+			prefix >>= 1
+			l--
+		}
+		if l == 0 {
+			break // that was the last node of the tree
+		}
+		prefix |= 1
+	}
+	return -1, nil
+}
+
+// nodeIndex is the forward map (path word -> pre-order index in the full tree of height h); false when the word
+// is not a well-formed path of height h (mask = a run of l ones left-aligned in h bits, searching bits only
+// under the mask). A node at depth l is preceded by its l ancestors and, for every right turn taken at depth k,
+// by the whole left subtree hanging there, 2^(h-k)-1 nodes. The right turn at depth k is bit h-1-k of the
+// searching bits, so 2^(h-k) is twice the value of that bit: index = l + 2*searching - (number of right turns).
+// Well-formed words and nodes correspond one to one and distinct nodes have distinct indexes, hence
+// "well-formed and nodeIndex(word) == index" says exactly "word is the path of index".
+func nodeIndex(h int, w uint64) (int64, bool) {
+	hi, lo := w>>32, w&0xffffffff
+	l := bits.OnesCount64(lo)
+	if l > h || lo != (uint64(1)<<uint(l)-1)<<uint(h-l) || hi&^lo != 0 {
+		return 0, false
+	}
+	return int64(l) + 2*int64(hi) - int64(bits.OnesCount64(hi)), true
+}
+
+// walkStride: n indexes start, start+step, ... (step > 1) of height h. Walking a path per index from the root
+// costs several times the two calls under test, so the result is judged through the forward map: it must be a
+// well-formed path whose node has pre-order index idx. Every failure is confirmed (and worded) by the descent
+// oracle, and every 256th node is compared with the descent oracle outright.
+func walkStride(h int, start, n, step int64) (fidx int64, f *vk.Failure) {
+	size := treeSize(h)
+	if start < 0 || step < 1 {
+		return -1, nil
+	}
+	cur := start
+	defer func() {
+		if r := recover(); r != nil {
+			fidx, f = cur, panicFailure(h, cur, r)
+		}
+	}()
+	hh, full := int32(h), int32(size)
+	idx := start
+	for j := int64(0); j < n && idx < size; j, idx = j+1, idx+step {
+		cur = idx
+		got := bmtree.IndexToPath(hh, int32(idx))
+		if ni, ok := nodeIndex(h, got); !ok || ni != idx || j&255 == 0 {
+			prefix, l := inverse(h, idx)
+			want := pathWord(prefix, l, h)
+			if got != want {
+				return idx, vk.Failf("index-to-path", "IndexToPath(h=%d, index=%d) = %#x, want %#x (prefix=%b len=%d)", h, idx, got, want, prefix, l)
+			}
+			if !ok || ni != idx {
+				vk.Infra(fmt.Sprintf("forward map rejects %#x (h=%d idx=%d: %d,%v) but the descent oracle names that path", got, h, idx, ni, ok))
+				return -1, nil
+			}
+		}
+		if back := bmtree.PathToIndex(full, got); int64(back) != idx {
+			return idx, vk.Failf("path-to-index-full", "PathToIndex(full h=%d, %#x) = %d, want %d", h, got, back, idx)
+		}
+	}
+	return -1, nil
+}
+
+// ---------------------------------------------------------------- lattice (quick tier, heights above the enumerated ones)
+
+// latticeOf: stride (odd, 113..127) and offset of the strided walk of height h; a pure function of (VERIF_SEED, h).
+func latticeOf(h int) (stride, off int64) {
+	z := vk.Mix(vk.Seed()*1000003 + uint64(h)*7919 + 0xc05)
+	stride = 113 + 2*int64(z%8)
+	off = int64((z >> 8) % uint64(stride))
+	return
+}
+
+func onLattice(h int, idx int64) bool {
+	if vk.Thorough() || h <= gridMaxH() {
+		return false
+	}
+	s, o := latticeOf(h)
+	return idx >= o && (idx-o)%s == 0
+}
+
+// ---------------------------------------------------------------- rapid
+
 func genCase(t *rapid.T) Case {
 	var h int
 	if vk.Thorough() || gen.Chance(t, 1, 8, "anyh") {
 		h = gen.Uniform(t, 31, "h")
 	} else {
-		h = 23 + gen.Uniform(t, 8, "h")
+		h = gridMaxH() + 1 + gen.Uniform(t, maxHeight-gridMaxH(), "h")
 	}
-	n := int64(1)<<uint(h+1) - 1
+	n := treeSize(h)
 	var idx int64
 	switch gen.Uniform(t, 8, "iclass") {
 	case 0:
@@ -113,9 +347,10 @@ func genCase(t *rapid.T) Case {
 	case 2:
 		idx = int64(1)<<uint(h) - 1 + int64(gen.Uniform(t, 3, "mid"))
 	case 3, 4:
+		// every position of the shortcut's window (index-h, index] relative to a multiple of 2^k
 		k := gen.Uniform(t, h+1, "k")
 		m := int64(gen.U64(t, "mult") % uint64(n>>uint(k)+1))
-		idx = m<<uint(k) - 1 + int64(gen.Uniform(t, 3, "d"))
+		idx = m<<uint(k) - 2 + int64(gen.Uniform(t, h+4, "d"))
 	default:
 		idx = int64(gen.U64(t, "idx") % uint64(n))
 	}
@@ -132,78 +367,135 @@ func TestRegress(t *testing.T) { checker.Regress(t) }
 
 func TestProp(t *testing.T) { checker.Prop(t, genCase) }
 
+// ---------------------------------------------------------------- grid
+
+type gridRun struct {
+	t              *testing.T
+	evals, nontriv int64 // enumerated / lattice nodes (distinct by construction)
+	extra          int64 // nodes of the offset sweep and the context walks (not counted as distinct)
+}
+
+// unit walks one unit; armed units leave a pending case while they run, so that a process death
+// (fatal runtime error, which no recover() sees) is attributed to the unit and replays from its file.
+func (g *gridRun) unit(c Case, armed bool) {
+	if armed {
+		vk.ArmProbe("C05", c)
+	}
+	fh, fidx, f := walkUnit(c)
+	if armed {
+		vk.DisarmProbe()
+	}
+	if f == nil {
+		return
+	}
+	// the per-case check writes the case file; first the node alone ...
+	if f1 := checker.Eval(Case{H: fh, Index: fidx}); f1 != nil {
+		g.t.Fatalf("VERIF-FAIL property=C05 kind=%s: %s", f1.Kind, f1.Msg)
+	}
+	// ... it holds in isolation: the result depended on the calls made before it; the unit up to that node as one case
+	upto := c
+	if c.Step == 0 || c.Step == 1 {
+		upto.Run = fidx - c.Index + 1
+	} else {
+		upto.Run = (fidx-c.Index)/c.Step + 1
+	}
+	if f2 := checker.Eval(upto); f2 != nil {
+		g.t.Fatalf("VERIF-FAIL property=C05 kind=%s (reproduces only after the preceding calls of its unit): %s", f2.Kind, f2.Msg)
+	}
+	vk.Infra(fmt.Sprintf("grid found %v at h=%d idx=%d (unit %+v) but neither the per-case check nor a second walk of the unit fails", f, fh, fidx, c))
+	g.t.Fatalf("VERIF-FAIL property=C05 kind=%s: %s", f.Kind, f.Msg)
+}
+
+func selfCheckOracles(t *testing.T) {
+	for h := 0; h <= maxHeight; h++ {
+		for l := 0; l <= h; l++ {
+			lm := uint64(1)<<uint(l) - 1
+			for _, p := range []uint64{0, lm, 0x2aaaaaaa & lm, vk.Mix(uint64(h*64+l)) & lm} {
+				if a, b := pathWord(p, l, h), model.PathWord(p, l, h); a != b {
+					vk.Infra(fmt.Sprintf("pathWord(%b,%d,%d) = %#x disagrees with model.PathWord = %#x", p, l, h, a, b))
+					t.Fatalf("harness self-check failed")
+				}
+			}
+		}
+	}
+	// the successor walk and the inverse must name the same nodes
+	for _, h := range []int{0, 1, 4, 7, 12} {
+		full := model.NewTree(int32(treeSize(h)))
+		p, l := uint64(0), 0
+		for idx := int64(0); idx < treeSize(h); idx++ {
+			ip, il := inverse(h, idx)
+			oi, _ := full.Index(p, l)
+			if ip != p || il != l || oi != idx {
+				vk.Infra(fmt.Sprintf("oracles disagree at h=%d idx=%d: succ (%b,%d) inverse (%b,%d) tree index %d", h, idx, p, l, ip, il, oi))
+				t.Fatalf("harness self-check failed")
+			}
+			if ni, ok := nodeIndex(h, pathWord(p, l, h)); !ok || ni != idx {
+				vk.Infra(fmt.Sprintf("forward map gives %d,%v for the node (%b,%d) of index %d, h=%d", ni, ok, p, l, idx, h))
+				t.Fatalf("harness self-check failed")
+			}
+			p, l, _ = model.Succ(p, l, h)
+		}
+	}
+	// ill-formed words must be rejected by the forward map
+	for _, w := range []uint64{0x0000000100000000, 0x00000000_00000005, 0x00000004_00000003, 0x00000010_0000000f, 0x80000000_00000000} {
+		if _, ok := nodeIndex(3, w); ok {
+			vk.Infra(fmt.Sprintf("forward map accepts the ill-formed word %#x (h=3)", w))
+			t.Fatalf("harness self-check failed")
+		}
+	}
+}
+
 // TestGrid walks full trees completely. Work unit: (height, subtree rooted at
 // depth k=min(h,8)); the nodes above depth k are done by the unit's owner 0.
 func TestGrid(t *testing.T) {
 	vk.SetPhase("grid")
+	selfCheckOracles(t)
 	shard, nshards := vk.Shard()
 	maxH := gridMaxH()
-	var evals, nontriv int64
-	unit := 0
-	fail := func(h int, idx int64, f *vk.Failure) {
-		if g := checker.Eval(Case{H: h, Index: idx}); g == nil {
-			vk.Infra(fmt.Sprintf("grid found %v at h=%d idx=%d but the per-case check passes", f, h, idx))
-		}
-		t.Fatalf("VERIF-FAIL property=C05 kind=%s: %s", f.Kind, f.Msg)
+	g := &gridRun{t: t}
+	if maxH < maxHeight && shard == 0 {
+		// cheap and aimed at the places where the code under test changes behaviour: first
+		g.offsetSweep(maxH + 1)
+		g.contextWalks()
 	}
+	unit := 0
 	for h := 0; h <= maxH; h++ {
 		k := min(h, 8)
-		full := model.NewTree(int32(int64(1)<<uint(h+1) - 1))
+		full := model.NewTree(int32(treeSize(h)))
 		// upper part: all nodes of depth < k
 		unit++
 		if unit%nshards == shard {
 			for l := 0; l < k; l++ {
 				for p := uint64(0); p < 1<<uint(l); p++ {
 					idx, _ := full.Index(p, l)
-					evals++
+					g.evals++
 					if f := checkNode(h, idx, p, l); f != nil {
-						fail(h, idx, f)
+						if f1 := checker.Eval(Case{H: h, Index: idx}); f1 == nil {
+							vk.Infra(fmt.Sprintf("grid found %v at h=%d idx=%d but the per-case check passes", f, h, idx))
+						}
+						t.Fatalf("VERIF-FAIL property=C05 kind=%s: %s", f.Kind, f.Msg)
 					}
 				}
 			}
 		}
+		sub := treeSize(h - k) // nodes of a subtree rooted at depth k
 		for root := uint64(0); root < 1<<uint(k); root++ {
 			unit++
 			if unit%nshards != shard {
 				continue
 			}
 			idx, _ := full.Index(root, k)
-			prefix, l := root, k
-			for {
-				// inlined checkNode for speed (no closure, no formatting on the hot path)
-				want := model.PathWord(prefix, l, h)
-				if got := bmtree.IndexToPath(int32(h), int32(idx)); got != want {
-					fail(h, idx, vk.Failf("index-to-path", "IndexToPath(h=%d, index=%d) = %#x, want %#x", h, idx, got, want))
-				}
-				if back := bmtree.PathToIndex(int32(int64(1)<<uint(h+1)-1), want); int64(back) != idx {
-					fail(h, idx, vk.Failf("path-to-index-full", "PathToIndex(full h=%d, %#x) = %d, want %d", h, want, back, idx))
-				}
-				evals++
-				if idx&0xfff == 0 {
-					checker.Remember(Case{H: h, Index: idx})
-				}
-				idx++
-				if l < h {
-					prefix <<= 1
-					l++
-					continue
-				}
-				for l > k && prefix&1 == 1 {
-					prefix >>= 1
-					l--
-				}
-				if l == k {
-					break
-				}
-				prefix |= 1
+			if p, l := inverse(h, idx); p != root || l != k {
+				vk.Infra(fmt.Sprintf("inverse oracle disagrees with tree oracle at h=%d idx=%d", h, idx))
+				t.Fatalf("harness self-check failed")
 			}
-		}
-		if h >= 5 {
-			// every node of this height's share is non-trivial; recompute lazily below
+			c := Case{H: h, Index: idx, Run: sub}
+			g.unit(c, true)
+			g.evals += sub
+			checker.Remember(Case{H: h, Index: idx})
 		}
 	}
-	// non-trivial = nodes of heights >= 5 in this shard: count again by formula per unit is
-	// awkward, so count while walking: evals of heights < 5 are at most 2^5+..., subtract exactly.
+	// non-trivial = nodes of heights >= 5 in this shard
 	small := int64(0)
 	u := 0
 	for h := 0; h <= min(maxH, 4); h++ {
@@ -219,12 +511,123 @@ func TestGrid(t *testing.T) {
 			}
 		}
 	}
-	nontriv = evals - small
-	vk.CountConstructed(evals, nontriv, "enumerated-node")
-	vk.AddSample(map[string]any{"enumeration": fmt.Sprintf("heights 0..%d, shard %d of %d", maxH, shard, nshards), "nodes_checked_by_this_shard": evals,
+	g.nontriv = g.evals - small
+	vk.CountConstructed(g.evals, g.nontriv, "enumerated-node")
+	vk.AddSample(map[string]any{"enumeration": fmt.Sprintf("heights 0..%d, shard %d of %d", maxH, shard, nshards), "nodes_checked_by_this_shard": g.evals,
 		"example_node": map[string]any{"h": 6, "index": 40, "path": fmt.Sprintf("%#x", bmtree.IndexToPath(6, 40))}})
 	vk.MarkExhaustive(fmt.Sprintf("every (h,index) for h in 0..%d", maxH))
-	if maxH == 30 {
+	if maxH == maxHeight {
 		vk.SetExtra("complete_domain_pairs", int64(1)<<32-33)
 	}
+	if maxH < maxHeight && shard == 0 {
+		g.lattice(maxH + 1)
+	}
+}
+
+// lattice: heights fromH..30, index = off + j*stride over the whole index range, in units of 2^16 samples.
+func (g *gridRun) lattice(fromH int) {
+	const chunk = int64(1) << 16
+	total := int64(0)
+	desc := map[string]any{}
+	for h := fromH; h <= maxHeight; h++ {
+		stride, off := latticeOf(h)
+		size := treeSize(h)
+		count := (size - off + stride - 1) / stride
+		for j := int64(0); j < count; j += chunk {
+			g.unit(Case{H: h, Index: off + j*stride, Run: min(chunk, count-j), Step: stride}, true)
+		}
+		total += count
+		desc[fmt.Sprintf("h=%d", h)] = fmt.Sprintf("index = %d + j*%d, %d nodes", off, stride, count)
+	}
+	vk.CountConstructed(total, total, "strided-node h:24-30")
+	vk.SetExtra("strided_lattice", desc)
+}
+
+// multipliers of 2^k for the offset sweep of height h: all of them when there are few, else
+// 1,2,3, the two largest and pseudo-random ones (every second one odd), distinct.
+func multipliers(h, k int, want int) []int64 {
+	top := (treeSize(h) - 1) >> uint(k) // the largest m with m*2^k inside the tree
+	if top < int64(want) {
+		ms := make([]int64, 0, top)
+		for m := int64(1); m <= top; m++ {
+			ms = append(ms, m)
+		}
+		return ms
+	}
+	seen := map[int64]bool{}
+	ms := make([]int64, 0, want)
+	add := func(m int64) {
+		if m >= 1 && m <= top && !seen[m] {
+			seen[m] = true
+			ms = append(ms, m)
+		}
+	}
+	for _, m := range []int64{1, 2, 3, top, top - 1} {
+		add(m)
+	}
+	z := vk.Seed()*0x9e3779b97f4a7c15 + uint64(h)<<8 + uint64(k)
+	for j := 0; len(ms) < want && j < 8*want; j++ {
+		z = vk.Mix(z + uint64(j))
+		m := int64(z % uint64(top+1))
+		if j&1 == 1 {
+			m |= 1
+		}
+		add(m)
+	}
+	return ms
+}
+
+// offsetSweep: for every height fromH..30, every k and the multipliers above, the h+4 consecutive
+// indexes m*2^k-2 .. m*2^k+h+1. The common-prefix shortcut of the code under test compares index-h
+// with index: these runs put the multiple of 2^k at every position of that window and just outside.
+// Heights are interleaved (k outer, m slot, height inner).
+func (g *gridRun) offsetSweep(fromH int) {
+	const perK = 64
+	var ms [maxHeight + 1][]int64
+	n := int64(0)
+	for k := 0; k <= maxHeight; k++ {
+		for h := fromH; h <= maxHeight; h++ {
+			ms[h] = nil
+			if k <= h {
+				ms[h] = multipliers(h, k, perK)
+			}
+		}
+		for slot := 0; slot < perK; slot++ {
+			for h := fromH; h <= maxHeight; h++ {
+				if slot >= len(ms[h]) {
+					continue
+				}
+				start, end := ms[h][slot]<<uint(k)-2, ms[h][slot]<<uint(k)+int64(h)+2
+				start, end = max(start, 0), min(end, treeSize(h))
+				run := end - start
+				g.unit(Case{H: h, Index: start, Run: run}, false)
+				n += run
+			}
+		}
+	}
+	g.extra += n
+	vk.CountConstructed(n, 0, "offset-sweep-node h:24-30")
+}
+
+// contextWalks: the same functions called in orders the enumeration never uses (a result must not
+// depend on the calls made before): all heights 5..30 in step index by index from 0, and descending
+// index order at the low and the high end of every height.
+func (g *gridRun) contextWalks() {
+	n := int64(0)
+	const span = 2048
+	g.unit(Case{H: 5, HTo: maxHeight, Index: 0, Run: span}, false)
+	for h := 5; h <= maxHeight; h++ {
+		n += min(span, treeSize(h))
+	}
+	for h := 5; h <= maxHeight; h++ {
+		size := treeSize(h)
+		r := min(span, size)
+		g.unit(Case{H: h, Index: r - 1, Run: r, Step: -1}, false)
+		g.unit(Case{H: h, Index: size - 1, Run: r, Step: -1}, false)
+		// around the root's right child (index 2^h), descending
+		g.unit(Case{H: h, Index: min(size-1, int64(1)<<uint(h)+span/2), Run: r, Step: -1}, false)
+		n += 3 * r
+	}
+	g.extra += n
+	vk.CountConstructed(n, 0, "context-walk-node h:5-30")
 }
